@@ -4,6 +4,7 @@ CONSTANTS MaxBr = 2 MaxN = 2 CopyMode = "eqlast"
   FillBr = 2
   ExtraBr = 2
   Shapes <- QuickShapes
+  Classes <- QuickClasses
   FillTemplates <- FillFew
   Templates <- FewTemplates
 INVARIANT Isolated
